@@ -282,9 +282,12 @@ class AsyncTLSStreamTransport(AsyncStreamTransport):
             except _ssl_module.SSLWantReadError:
                 try:
                     # Flush any pending writes first
-                    async with self.__transport_send_lock:
-                        if self._write_bio.pending:
-                            await self._transport.send_all(self._write_bio.read())
+                    # NOTE: Do not wait for the lock if there is nothing to send. A reader must not be held back
+                    #       by a sender blocked on backpressure (full-duplex deadlock if the peer is waiting for us to read).
+                    if self._write_bio.pending:
+                        async with self.__transport_send_lock:
+                            if self._write_bio.pending:
+                                await self._transport.send_all(self._write_bio.read())
 
                     async with self.__transport_recv_lock:
                         await self.__incoming_reader.readinto(self._read_bio)
